@@ -53,7 +53,7 @@ def setTimedOut (l : List Req) (r : Nat) : List Req :=
 inductive Step (perRequest : Bool) : St → St → Prop
   | openConn (s : St) (c : Nat) : Step perRequest s { s with conns := (c, s.limiter) :: s.conns }
   /-- a call arrives while no writer holds or waits: admitted (TryRLock succeeds), snapshot taken -/
-  | admit (s : St) (r c cl : Nat) (hu : s.upd = .idle) (hc : (c, cl) ∈ s.conns) (hnew : ∀ q ∈ s.reqs, q.id ≠ r) :
+  | admitReq (s : St) (r c cl : Nat) (hu : s.upd = .idle) (hc : (c, cl) ∈ s.conns) (hnew : ∀ q ∈ s.reqs, q.id ≠ r) :
       Step perRequest s
         { s with reqs := ⟨r, s.policy, .active, false, if perRequest then s.limiter else cl⟩ :: s.reqs }
   /-- a call arrives mid-drain: TryRLock fails, retry-later reply, nothing else happens -/
@@ -107,7 +107,7 @@ theorem mem_setTimedOut {l : List Req} {r : Nat} {x : Req} (h : x ∈ setTimedOu
 theorem inv_step (b : Bool) (s s' : St) (hI : Inv s) (hs : Step b s s') : Inv s' := by
   cases hs with
   | openConn c => exact ⟨hI.current, hI.holding, hI.log⟩
-  | admit r c cl hu hc hnew =>
+  | admitReq r c cl hu hc hnew =>
     refine ⟨?_, ?_, hI.log⟩
     · intro q hq ha
       simp only [List.mem_cons] at hq
